@@ -139,6 +139,24 @@ fn call<F: Float>(int: &[u8], frac: &[u8], exp: i32, shape: u64) -> F {
             b.push(b'9');
             minimal_lexical::parse_float::<F, _, _>(a[oi..oi + int.len()].iter(), b[of..of + frac.len()].iter(), exp)
         },
+        10 => {
+            // one DECISIVE digit (the last non-zero one, else the last) comes from somewhere else: the buffer holds a different
+            // byte at that place, the iterator yields the right one through `chain(once)`.  The chain is exact-sized and its
+            // first and last items are len - 1 bytes apart in one allocation - it only LOOKS like a slice
+            fn subst(s: &[u8]) -> (Vec<u8>, usize) {
+                let k = s.iter().rposition(|&c| c != b'0').unwrap_or(s.len().saturating_sub(1));
+                let mut b = s.to_vec();
+                if !b.is_empty() {
+                    b[k] = if s[k] == b'0' { b'5' } else { b'0' };
+                }
+                (b, k)
+            }
+            let (a, ka) = subst(int);
+            let (b, kb) = subst(frac);
+            let ia = a[..ka.min(a.len())].iter().chain(int.get(ka).into_iter()).chain(a[(ka + 1).min(a.len())..].iter());
+            let ib = b[..kb.min(b.len())].iter().chain(frac.get(kb).into_iter()).chain(b[(kb + 1).min(b.len())..].iter());
+            minimal_lexical::parse_float::<F, _, _>(ia, ib, exp)
+        },
         _ => {
             // the same with std adaptors (map_while is not fused either)
             let mut a: Vec<u8> = int.to_vec();
@@ -357,7 +375,7 @@ fn main() {
                     for round in 0..hammer {
                         for &idx in &mine {
                             let mut r = recs[idx].clone();
-                            let shape = ((round + t) % 10) as u64;
+                            let shape = ((round + t) % 11) as u64;
                             r["shape"] = Value::from(shape);
                             let o = run_one(&r, false, false);
                             let cur = (o["out"]["kind"].clone(), o["out"]["bits"].clone());
@@ -377,7 +395,7 @@ fn main() {
                     let step = [1usize, 3, 7, 11, 13, 17, 19, 23][t % 8];
                     let idx = (k * step + t * 5) % n;
                     let mut r = recs[idx].clone();
-                    let shape = (r.get("shape").and_then(|v| v.as_u64()).unwrap_or(0) + t as u64 + (k as u64 / 3)) % 10;
+                    let shape = (r.get("shape").and_then(|v| v.as_u64()).unwrap_or(0) + t as u64 + (k as u64 / 3)) % 11;
                     r["shape"] = Value::from(shape);
                     let o = run_one(&r, poison && ((k + t) % 2 == 0), false);
                     v.push(json!({"id": o["id"], "thread": t, "seq": k, "shape": shape, "kind": o["out"]["kind"], "bits": o["out"]["bits"]}));
